@@ -373,7 +373,7 @@ func c16Pos(rnd *Rand, limit int64) int64 {
 func checkC16(c *ctx) {
 	r := c.res
 	r.Rule = "records: CIGARs of 0..8 ops over the nine standard ops and B with lengths from {0,1,2,small,2^14±1,2^28-1} at edge-biased positions (tile and bin-level edges ±2, ends of the 2^29 range), mapped/unmapped/mate-unmapped, including CIGARs that consume no reference placed exactly on tile and bin-level boundaries and unplaced reads (pos -1); a separate stream with op types 10..15 (compared with the model only). " +
-		"BAI: edge-biased overlapping interval pairs; CSI: every overlapping interval pair of small geometries (exhaustive) and edge-biased pairs of large ones. Non-trivial: CIGAR non-empty / intervals longer than 1; distinct = distinct case text."
+		"BAI: edge-biased overlapping interval pairs; CSI: every overlapping interval pair of small geometries (exhaustive) and edge-biased pairs of large ones, including geometries whose range exceeds 2^32 up to minShift+3·depth = 62. Non-trivial: CIGAR non-empty / intervals longer than 1; distinct = distinct case text."
 	if c.replay != "" {
 		var in c16Input
 		if err := loadReplay(c.replay, &in); err != nil {
@@ -531,7 +531,9 @@ func checkC16(c *ctx) {
 		r.Distinct += cnt
 		r.Histogram[fmt.Sprintf("csipair.exhaustive.ms%d.d%d", g.ms, g.d)] = cnt
 	}
-	big := []geo{{14, 5}, {14, 5}, {14, 5}, {14, 6}, {12, 5}, {16, 4}, {10, 7}, {5, 3}, {14, 0}, {20, 1}, {0, 9}}
+	big := []geo{{14, 5}, {14, 5}, {14, 5}, {14, 6}, {12, 5}, {16, 4}, {10, 7}, {5, 3}, {14, 0}, {20, 1}, {0, 9},
+		// ranges beyond 2^32 (coordinates that do not fit a uint32) up to the largest geometry the library accepts
+		{14, 7}, {12, 8}, {20, 5}, {14, 9}, {2, 10}, {3, 10}, {30, 10}, {32, 10}, {40, 7}}
 	nCsi := 30000
 	if c.thorough() {
 		nCsi = 600000
